@@ -21,13 +21,17 @@ import (
 // by a failure in a nested load).  After EVERY return the invariants are
 // asserted on the live runtime, and a fixed probe program is compared with a
 // twin runtime that only received the effects whose completion probes fired.
+// The contexts the evaluations run under, when those end, and the definitions
+// that outlive them are the second dimension of a history: see c05_ctx.go.
 
 func init() {
 	fw.Register(&fw.Prop{
 		ID:    "C05",
 		Level: "fault_enumeration",
 		Rule: "histories of 12-40 top-level evaluations in one runtime through every exported entry point (Load*, Load*Context, LoadProgram, Eval, EvalContext, EvalSExpr, FunCall, FunCallContext, MacroCall, SpecialOpCall, lisp load-string/load-bytes), " +
-			"a random subset failing by 14 fault kinds incl. a step budget exhausted at an enumerated step index and cancellation at an enumerated step index; invariants asserted after every return, and a probe program compared with a twin runtime that replays only completed effects. " +
+			"a random subset failing by 29 fault kinds incl. a step budget exhausted at an enumerated step index, cancellation at an enumerated step index and a real context cancelled by the host at an enumerated effect; " +
+			"evaluations define functions, closures and macros (bodies through special operators and re-entrant builtins) under scripted and real contexts (WithCancel, WithDeadline, children of a parent) that end mid-evaluation, right after the return or later in the history, and later steps call them through every entry point without a context or under a fresh one; " +
+			"invariants asserted after every return, no context-cancelled condition out of an evaluation whose own context is absent or live, no question put to the context of a finished evaluation, and a context-free probe program (prints and calls every definition) compared with a twin runtime that replays only completed effects. " +
 			"distinct_nontrivial counts distinct (entry point, fault kind, fault position class, outcome condition) combinations observed",
 		Assumptions: []string{
 			"effects in the workload are atomic statements each followed by a completion probe, so 'completed' is read off the effect trace",
@@ -42,11 +46,18 @@ func init() {
 // scriptedCtx is a context whose Err() starts failing at its k-th call: since
 // the evaluator asks once per step this is "cancel at step index k" with no
 // wall clock.  Done() is closed at the same moment.
+//
+// Once the evaluation it was given to has returned the host marks it finished:
+// like a real context it then changes state no more, and every further question
+// put to it is counted in late - nobody has any business with the context of a
+// finished evaluation.
 type scriptedCtx struct {
 	context.Context
 	calls, at int
 	done      chan struct{}
 	closed    bool
+	finished  bool
+	late      int
 }
 
 func newScriptedCtx(at int) *scriptedCtx {
@@ -54,6 +65,13 @@ func newScriptedCtx(at int) *scriptedCtx {
 }
 
 func (c *scriptedCtx) Err() error {
+	if c.finished {
+		c.late++
+		if c.closed {
+			return context.Canceled
+		}
+		return nil
+	}
 	c.calls++
 	if c.at > 0 && c.calls >= c.at {
 		if !c.closed {
@@ -73,14 +91,14 @@ var c05Entries = []string{"LoadString", "LoadStringContext", "Load", "LoadContex
 
 var c05Faults = []string{"none", "none", "error", "type-error", "arity-error", "unbound", "stack-limit", "nesting-limit", "macro-limit", "step-budget", "cancel",
 	"panic-arg", "panic-in-handler", "panic-under-ignore-errors", "panic-in-map", "panic-in-macro", "error-in-handler", "in-package-then-fail", "rethrow-outside", "tail-iter-limit",
-	"empty-source", "cross-package-fail-mid", "cross-package-fail-mid-swallowed", "cross-package-macro-fail-mid", "bad-handler", "bad-handler-swallowed", "fail-in-binding-form", "panic-direct-callback", "cross-package-empty-body"}
+	"empty-source", "cancel-host", "cross-package-fail-mid", "cross-package-fail-mid-swallowed", "cross-package-macro-fail-mid", "bad-handler", "bad-handler-swallowed", "fail-in-binding-form", "panic-direct-callback", "cross-package-empty-body"}
 
 // c05Effect returns the k-th effect statement of a step (atomic, followed by a
 // completion probe) and the same statement without probe for the twin.
 func c05Effect(r *fw.RNG, tag string) (main, twin string) {
 	g := r.Intn(6) + 1
 	var st string
-	switch r.Intn(6) {
+	switch r.Intn(12) {
 	case 0:
 		st = fmt.Sprintf("(set 'g%d %d)", g, r.Intn(1000))
 	case 1:
@@ -91,8 +109,14 @@ func c05Effect(r *fw.RNG, tag string) (main, twin string) {
 		st = fmt.Sprintf("(append! gv %d)", r.Intn(100))
 	case 4:
 		st = fmt.Sprintf("(defun f%d (x) (+ x %d))", r.Intn(3)+1, r.Intn(50))
-	default:
+	case 5:
 		st = fmt.Sprintf("(set 'g%d (sorted-map \"n\" %d))", g, r.Intn(100))
+	case 6, 7, 8:
+		// a function, closure or macro whose body re-enters the evaluator (c05_ctx.go)
+		st = c05Definition(r)
+	default:
+		// a call of what earlier evaluations defined
+		st = c05Use(r)
 	}
 	return fmt.Sprintf("(verif:probe '%s %s)", tag, st), st
 }
@@ -151,7 +175,7 @@ func c05FaultForm(kind string, r *fw.RNG) string {
 	case "bad-handler":
 		// the clause that matches has a handler expression that fails or is not a function
 		return fw.Pick(r, []string{"(handler-bind ((condition no-such-handler)) (error 'x \"boom\"))", "(handler-bind ((x 42)) (error 'x 1))",
-			"(handler-bind ((a (lambda (&rest e) 1)) (b (car 5))) (error 'b 1))", "(f1 (handler-bind ((condition (f2 'not-a-function))) (car 5)))",
+			"(handler-bind ((a (lambda (&rest e) 1)) (b (car 5))) (error 'b 1))", "(f1 (handler-bind ((condition (run-thunk (lambda () 'not-a-function)))) (car 5)))",
 			"(handler-bind ((condition (lambda (c &rest a) (handler-bind ((condition 7)) (error 'second))))) (error 'first))"})
 	case "fail-in-binding-form":
 		// failures inside the parts of binding and control forms that are not plain bodies
@@ -166,6 +190,8 @@ const c05Prelude = `
 (set 'g1 0) (set 'g2 0) (set 'g3 0) (set 'g4 0) (set 'g5 0) (set 'g6 0)
 (set 'gm (sorted-map)) (set 'gv (vector))
 (defun f1 (x) x) (defun f2 (x) x) (defun f3 (x) x)
+(set 'h1 (lambda (x) x)) (set 'h2 (lambda (x) x))
+(defmacro m1 (x) x) (defmacro m2 (x) x)
 (defmacro nest-m (n) (if (<= n 0) 1 (quasiquote (identity (nest-m (unquote (- n 1)))))))
 (defmacro forever-m () (quasiquote (forever-m)))
 (defmacro panic-m (x) (verif:panic))
@@ -182,7 +208,11 @@ const c05Prelude = `
 (in-package 'user)
 `
 
-const c05ProbeProgram = `(list other-pkg:own (handler-bind ((condition (lambda (c &rest a) 'none))) other-pkg:g1) g1 g2 g3 g4 g5 g6 gm gv (f1 1) (f2 1) (f3 1) (+ 1 2) (let ([x 5]) (labels ((up (n) (if (<= n 0) x (up (- n 1))))) (up 20))))`
+// The probe program runs WITHOUT a context.  It prints every definition (a
+// function value prints as its source, so the probe tells any two definitions
+// apart) and calls each one directly, as a callback and from a handler.
+const c05ProbeProgram = `(list other-pkg:own (handler-bind ((condition (lambda (c &rest a) 'none))) other-pkg:g1) g1 g2 g3 g4 g5 g6 gm gv (f1 1) (f2 1) (f3 1) (+ 1 2) (let ([x 5]) (labels ((up (n) (if (<= n 0) x (up (- n 1))))) (up 20)))
+ f1 f2 f3 h1 h2 m1 m2 (h1 0) (h1 2) (h2 0) (h2 3) (m1 1) (m2 (f3 2)) (map 'list f2 '(1 7)) (funcall h2 5) (handler-bind ((condition (lambda (c &rest a) (f3 4)))) (error 'boom)))`
 
 // c05NewRuntime builds a runtime under one of several legitimate host configurations
 // (a limit switched off is as legitimate as a limit set).
@@ -229,7 +259,39 @@ func c05Run(w *fw.W, idx int) {
 		w.Violation("dirty-after-prelude", fmt.Sprintf("%+v", before0), "")
 		return
 	}
+	// real contexts of this history that are still live, and how the most recent
+	// context of the history ended (since the last probe)
+	var pending []*c05Life
+	lastEnd := "none"
+	var scripted []*scriptedCtx // of finished evaluations
+	consulted := func() bool {
+		for _, sc := range scripted {
+			if sc.late > 0 {
+				return true
+			}
+		}
+		return false
+	}
+	defer func() {
+		main.OnProbe = nil
+		for _, l := range pending {
+			l.cleanup()
+		}
+	}()
 	for step := 0; step < nsteps; step++ {
+		// the host releases contexts of earlier, finished evaluations at any later time
+		keep := pending[:0]
+		for _, l := range pending {
+			if r.Chance(1, 3) {
+				l.finish()
+				l.cleanup()
+				lastEnd = "released-later"
+				w.SetAdd("context_lives", l.kind+"/released-later")
+			} else {
+				keep = append(keep, l)
+			}
+		}
+		pending = keep
 		entry := fw.Pick(r, c05Entries)
 		fault := fw.Pick(r, c05Faults)
 		if (variant%4 == 1 || variant%4 == 3) && fault == "nesting-limit" {
@@ -255,7 +317,7 @@ func c05Run(w *fw.W, idx int) {
 		faultForm := ""
 		swallowed := false
 		switch fault {
-		case "none", "step-budget", "cancel", "empty-source":
+		case "none", "step-budget", "cancel", "cancel-host", "empty-source":
 		case "cross-package-fail-mid-swallowed":
 			// the failure is swallowed in the middle of the evaluation: what follows must
 			// still run in the caller's package
@@ -301,17 +363,72 @@ func c05Run(w *fw.W, idx int) {
 		}
 		lisp.WithMaxSteps(budget)(main.Env)
 		var ctx context.Context
-		if fault == "cancel" {
+		var life *c05Life
+		lifeEnd := ""
+		switch {
+		case fault == "cancel":
 			ctx = newScriptedCtx(r.Range(1, 60))
-		} else if strings.HasSuffix(entry, "Context") {
-			ctx = newScriptedCtx(0) // never cancelled, but counts steps
+		case fault == "cancel-host":
+			// a real context that the HOST ends while the evaluation runs: when the
+			// completion probe of the effect before the fault position fires (before
+			// the evaluation starts for position 0)
+			life, lifeEnd = c05NewLife(r), "cancelled-mid-by-host"
+			ctx = life.ctx
+			if pos == 0 {
+				life.finish()
+			} else {
+				at, l := tags[pos-1], life
+				main.OnProbe = func(tag string) {
+					if tag == at {
+						l.finish()
+					}
+				}
+			}
+		case strings.HasSuffix(entry, "Context"):
+			if r.Chance(1, 3) {
+				ctx = newScriptedCtx(0) // never cancelled, but counts steps
+			} else {
+				// a real context that ends after the evaluation returned: at once (the
+				// host's `defer cancel()`), at a later point of the history, or never
+				life = c05NewLife(r)
+				lifeEnd = fw.Pick(r, []string{"released-after-return", "released-after-return", "released-later", "released-later", "kept"})
+				ctx = life.ctx
+			}
 		}
 
 		before := c05Snapshot(main)
 		tf, ef := main.Marks()
 		v := c05Enter(main, entry, body, ctx, r)
 		after := c05Snapshot(main)
+		main.OnProbe = nil
 		w.Eval(1)
+		own := c05OwnState(ctx) // of the context this evaluation was given, at its return
+		stale := consulted()
+		if sc, ok := ctx.(*scriptedCtx); ok {
+			sc.finished = true
+			scripted = append(scripted, sc)
+			if sc.closed {
+				lastEnd = "cancelled-mid-scripted"
+			}
+		}
+		if life != nil {
+			switch lifeEnd {
+			case "released-after-return":
+				life.finish()
+				life.cleanup()
+				lastEnd = lifeEnd
+			case "cancelled-mid-by-host":
+				if life.ended {
+					lastEnd = lifeEnd
+				}
+				life.cleanup()
+			default:
+				pending = append(pending, life)
+			}
+			if lifeEnd != "released-later" {
+				w.SetAdd("context_lives", life.kind+"/"+lifeEnd)
+			}
+		}
 		tr := main.TranscriptOf(v, tf, ef)
 		desc := fmt.Sprintf("step %d entry=%s fault=%s@%s budget=%d\n%s\n=> %s", step, entry, fault, posClass, budget, body, tr.Outcome())
 		history = append(history, desc)
@@ -336,6 +453,44 @@ func c05Run(w *fw.W, idx int) {
 		if bad != "" {
 			w.Violation("dirty-runtime:"+c05DirtyClass(bad)+":"+key, bad+" (entry "+entry+", fault "+fault+")", strings.Join(history, "\n---\n"))
 			return
+		}
+		// Cancellation belongs to ONE evaluation: the condition may only come out of
+		// an evaluation whose own context has ended - never out of one that was given
+		// no context or whose context is live, whatever contexts earlier evaluations
+		// of the history ran under and however those ended.
+		if tr.IsErr && tr.Cond == lisp.CondContextCancelled && own != "ended" {
+			w.Violation("stale-context:step-context-"+own, fmt.Sprintf("entry %s (fault %s) failed with %s although its own context is %s; the last context of the history to end was %s: %s",
+				entry, fault, tr.Cond, own, lastEnd, tr.Msg), strings.Join(history, "\n---\n"))
+			return
+		}
+		if stale {
+			w.Violation("stale-context:consulted-after-return", fmt.Sprintf("entry %s (fault %s, own context %s) asked the context of an evaluation that had returned before it began", entry, fault, own), strings.Join(history, "\n---\n"))
+			return
+		}
+		// no fault was planted: the step's effects run in the twin, so nothing may fail
+		// here that does not fail there
+		if tr.IsErr && fault == "none" {
+			nf := 0
+			for _, p := range tr.Trace {
+				for _, tg := range tags {
+					if p.Tag == tg {
+						nf++
+					}
+				}
+			}
+			if nf < neff {
+				ok := true
+				for k := 0; k <= nf && ok; k++ {
+					ok = twin.Env.LoadString("twin", twinParts[k]).Type != lisp.LError
+				}
+				if ok {
+					w.Violation("unplanted-failure:"+entry, fmt.Sprintf("no fault was planted, yet entry %s (own context %s) failed with %s in effect %d, which the fault-free twin completes: %s", entry, own, tr.Cond, nf, tr.Msg),
+						strings.Join(history, "\n---\n"))
+					return
+				}
+				w.Violation("twin-replay-failed", "an effect fails by itself (workload error): "+twinParts[nf], strings.Join(history, "\n---\n"))
+				return
+			}
 		}
 		// every error must be an ordinary error unless a host panic was injected
 		if tr.Panic && !strings.HasPrefix(fault, "panic") {
@@ -386,6 +541,16 @@ func c05Run(w *fw.W, idx int) {
 		lisp.WithMaxSteps(0)(main.Env)
 		pm := main.Run("probe", c05ProbeProgram)
 		w.Eval(1)
+		if pm.IsErr && pm.Cond == lisp.CondContextCancelled {
+			w.Violation("stale-context:probe:"+lastEnd, fmt.Sprintf("a context-free evaluation that calls the definitions of earlier evaluations failed with %s; the last context of the history to end: %s (after entry %s, fault %s): %s",
+				pm.Cond, lastEnd, entry, fault, pm.Msg), strings.Join(history, "\n---\n"))
+			return
+		}
+		if consulted() {
+			w.Violation("stale-context:consulted-after-return", fmt.Sprintf("the context-free probe evaluation after entry %s (fault %s) asked the context of an evaluation that had returned before it began", entry, fault), strings.Join(history, "\n---\n"))
+			return
+		}
+		lastEnd = "none"
 		applied := 0
 		matched := false
 		var pt rt.Transcript
